@@ -522,7 +522,7 @@ class Interp:
 
 def run_case(case):
     LAST_TAGS.clear()
-    if case['kind'] == 'server':
+    if case['kind'] in ('server', 'brokenpipe'):
         # a PortServer (MultiPort over accepted socket ports): blocking receive with a message waiting in a sub-port
         from checks import c18_sockets as C18
         return C18.run_case(case)
@@ -540,7 +540,7 @@ def run_case(case):
 
 
 def nontrivial(case):
-    if case['kind'] == 'server':
+    if case['kind'] in ('server', 'brokenpipe'):
         return True
     it = Interp(case['kind'], case.get('autoreset', False))
     for op in case['ops']:
@@ -688,6 +688,8 @@ def main(ctx):
     for case in C18.server_cases(ctx.tier):
         if case.get('late_send') and case['drain'] == 'receive':
             ctx.check(case, classes=('portserver-blocking-receive',), sample=False)
+    for case in C18.brokenpipe_cases():
+        ctx.check(case, classes=('socket-port-broken-pipe-in-send',), sample=False)
     ctx.pmap('enum_failing_reset', [0])
     ctx.pmap('enum_selfclose', [False, True])
     n = 500 if ctx.tier == 'quick' else 6000
